@@ -355,8 +355,8 @@ func expectedDetections(c *Case) []Ev {
 			st = expectedSetOf(c, &Ev{Round: c.Parent, VType: 5})
 		}
 		idx := indexIn(st, dr.Signer)
-		if idx < 0 {
-			continue
+		if idx < 0 || st[idx].Bls != dr.Signer {
+			continue // not in the set of this vote kind, or registered there with another BLS key: the vote does not verify
 		}
 		if !have[m.Kind] {
 			have[m.Kind], first[m.Kind] = true, m.Hash
